@@ -44,6 +44,21 @@ func TestC03(t *testing.T) {
 		},
 		classify: func(id string, p *proggen.Prog, e *proggen.Expect) {
 			p.Walk(func(si proggen.SiteInfo) {
+				if si.Site.Kind == "mcall.chain" {
+					n := 0
+					for _, c := range e.Counts[si.Site.ID] {
+						n += c
+					}
+					ev.Class(id, fmt.Sprintf("chained call x.M1().M2() with %d expected reports", n))
+				}
+			})
+			for _, pk := range p.Pkgs {
+				if pk.Consumer {
+					ev.Class(id, "program with a package that declares no annotations of its own")
+					break
+				}
+			}
+			p.Walk(func(si proggen.SiteInfo) {
 				for _, evn := range si.Site.Events() {
 					var item string
 					switch {
